@@ -1,9 +1,9 @@
 (* Extraction of the executable models for the correspondence check. ExtrOcamlBasic only:
    bool, option, unit, prod, list, sumbool, sumor map to OCaml's; N, positive, nat stay inductive. *)
 From Coq Require Import Extraction ExtrOcamlBasic.
-Require Import LruV.A.ModelA LruV.A.MonitorsA LruV.A.PanicA LruV.B.RiCheck LruV.B.OpsB LruV.B.StepB LruV.B.CloneB.
+Require Import LruV.A.ModelA LruV.A.MonitorsA LruV.A.PanicA LruV.B.RiCheck LruV.B.OpsB LruV.B.StepB LruV.B.CloneB LruV.B.PanicB.
 Extraction Language OCaml.
 
 Extraction "../ocaml/model.ml" stepA new_cache capacity len fullcap b2c do_clone do_drop do_into_iter pinned fixed
-  c01_mon c02_mon c04_nodup_mon c06_mon c13_mon c20_mon ri_check t_alloc panic_points clone_pts b_touch b_remove b_insert_new b_moves b_set_size b_reset b_removes b_links upd stepB absB bB_clone bB_into_iter bB_drop
+  c01_mon c02_mon c04_nodup_mon c06_mon c13_mon c20_mon ri_check t_alloc panic_points clone_pts b_touch b_remove b_insert_new b_moves b_set_size b_reset b_removes b_links upd stepB absB bB_clone bB_into_iter bB_drop bpoints
   N.add N.mul N.div_eucl N.of_nat N.eqb N.testbit.
